@@ -19,6 +19,8 @@ from .ipcmodel import IPC, DUMPS, LOADS, BE32, UNBE32, BYTES, UUIDOF
 
 
 def build(reg, src):
+    from contracts import c14 as _c14
+    reg.extra_checks.append(lambda ctx: _c14.reply_is_the_result_rows(src))
     reg.assumptions += [
         "pickle: loads(dumps(v)) is structurally equal to v for data values and the same object only for objects pickled by reference "
         "(premise checked on the class statement of KGUndefined); struct '!I' and uuid bytes are inverse codecs on their domains",
@@ -204,6 +206,7 @@ def build(reg, src):
     reg.extra_checks.append(check_undefined)
     from replay import c13 as rp
     reg.extra_checks.append(rp.confirm_undefined)
+    reg.replays.append((r'KGRemoteFnProxy|NetworkClientDictHandle|execute_server_command', rp.replay_remote_values))
     reg.replays.append((r'.', rp.replay_framing))
 
 
